@@ -35,7 +35,34 @@ def obligations(ctx):
     obs = ctx.verify(FUNCTIONS)
     keep = [o for o in obs if o.meta.get("function") != "AssemblyManager.assemble"
             or any(k in o.name for k in ("citation", "reference-list", "cover"))]
-    return keep + lemmas(ctx)
+    return keep + lemmas(ctx) + pattern_table(ctx)
+
+
+def pattern_table(ctx):
+    """C: the assumed contract of the citation pattern (D-RE-CIT: `[` digits `]` is matched and group 1 is *all* the
+    digits) is enumerated against the real compiled pattern object of the tree: every index 1..1200 and a few larger
+    ones must come back as itself (a finite table, complete for the reference lists GenBank files carry)"""
+    from pyvc import native
+    ns = native.load(ctx.repo_root)
+    core = ns["moclo.core"]
+    rx = getattr(core._assembly.AssemblyManager, "_CITATION_RX", None)
+    bad = []
+    if rx is None:
+        bad.append("AssemblyManager._CITATION_RX is gone (the contract of _deref_citations names it)")
+    else:
+        for q in list(range(1, 1201)) + [4095, 12345, 100000]:
+            m = rx.match("[%d]" % q)
+            try:
+                got = int(m.group(1)) if m is not None else None
+            except Exception as e:
+                got = repr(e)
+            if got != q:
+                bad.append("'[%d]' is read as index %r" % (q, got))
+                if len(bad) > 5:
+                    break
+    return [Obligation("C10.C1 the citation pattern reads every bracketed index as itself", [], tm.B(not bad), kind="C",
+                       text="; ".join(bad) or "1..1200, 4095, 12345, 100000", meta=dict(function="_CITATION_RX",
+                                                                                         clause="citation-pattern-table", detail=bad))]
 
 
 def lemmas(ctx):
@@ -143,7 +170,7 @@ def bounded(ctx):
     evals = 0
     distinct = set()
     import re as _re
-    for nrefs in (0, 1, 2, 3):
+    for nrefs in (0, 1, 2, 3, 12):
         for shared in (False, True):
             for dup_refs in (False, True):
                 if dup_refs and nrefs < 2:
